@@ -5,7 +5,7 @@
    chain.  That dereferencing reads and writes exactly the target is the definition of resolve for the
    '^' resolver (it returns the target's own cell id) and is compared with the implementation, normal and
    sanitizer build, on every activation pattern the generators produce. *)
-From PE2 Require Import Eval Lemmas_HeapIds Lemmas_Out.
+From PE2 Require Import Eval Lemmas_HeapIds Lemmas_Out Lemmas_DeepCopy Lemmas_HeapInv.
 Local Open Scope Z_scope.
 
 Theorem C09_ctx_ids_fresh : forall parent name isfun isrec rett s id s',
@@ -31,3 +31,15 @@ Theorem C09_ids_never_reused : forall ped repl lim fuel bl c s,
   (s_next s <= s_next (snd (run_block ped repl lim fuel bl c s)))%N.
 Proof. exact run_block_ids_only_grow. Qed.
 Print Assumptions C09_ids_never_reused.
+
+(* over the whole evaluator: the cell a pointer was taken to never disappears and keeps its name, declared type, CONSTANT flag
+   and owner; no array and no context disappears either, and identifiers in use stay below the counter (so the identifier a
+   pointer stores keeps denoting the same object, of the same type, for as long as the run lasts) *)
+Theorem C09_targets_persist_with_their_type : forall ped repl lim fuel bl c s, hb s ->
+  let s' := snd (run_block ped repl lim fuel bl c s) in
+  hb s' /\ (s_next s <= s_next s')%N /\
+  (forall id cl, nm_get id (s_cells s) = Some cl -> exists cl', nm_get id (s_cells s') = Some cl' /\ same_meta cl cl') /\
+  (forall id a, nm_get id (s_arrs s) = Some a -> nm_get id (s_arrs s') = Some a) /\
+  (forall id x, nm_get id (s_ctxs s) = Some x -> exists x', nm_get id (s_ctxs s') = Some x').
+Proof. intros ped repl lim fuel bl c s H. exact (run_block_keeps_heap ped repl lim fuel bl c s H). Qed.
+Print Assumptions C09_targets_persist_with_their_type.
